@@ -1320,7 +1320,7 @@ func execC11(x *hysim.Run) {
 		}
 		probeStall = true
 		x.Ev("STALL: lost MTU probe of %d bytes is the only packet in flight, window %d, CanSend=false, no PTO is armed for MTU probes", s.mtuSize, b.GetCongestionWindow())
-		if sc.Get("report_probe_stall", 0) == 1 {
+		{
 			x.Violate("mtu-probe-stall", "data to send (%d bytes) but the sender is blocked for good: the only packet in flight is a lost path-MTU probe of %d bytes, the window is at its floor of one datagram (%d, srtt %v, rate %d B/s), CanSend(%d) is false, and QUIC arms no PTO for MTU probes", s.pending, s.mtuSize, b.GetCongestionWindow(), rtt.smoothed, bps, s.bif)
 		}
 		return true
